@@ -76,6 +76,12 @@ func (l *Lexer) ReadChar() {
 }
 
 // PeekChar returns the next character without advancing the lexer position.
+// atEnd reports whether the whole input has been read. CurrentChar is 0 then, but a
+// NUL byte inside the input is 0 as well, so the position decides.
+func (l *Lexer) atEnd() bool {
+	return l.position >= len(l.input)
+}
+
 func (l *Lexer) PeekChar() byte {
 	if l.readPosition >= len(l.input) {
 		return 0
@@ -104,7 +110,7 @@ func (l *Lexer) readLeadingComments() {
 			l.ReadChar()
 
 			var comment strings.Builder
-			for l.CurrentChar != '\n' && l.CurrentChar != 0 {
+			for l.CurrentChar != '\n' && !l.atEnd() {
 				comment.WriteByte(l.CurrentChar)
 				l.ReadChar()
 			}
@@ -264,7 +270,7 @@ func (l *Lexer) readString(delimiter byte) string {
 
 	for {
 		l.ReadChar()
-		if l.CurrentChar == 0 {
+		if l.atEnd() {
 			break
 		}
 		// Handle escape sequences
@@ -423,7 +429,7 @@ func (l *Lexer) readRawString() string {
 	var result strings.Builder
 	for {
 		l.ReadChar()
-		if l.CurrentChar == 0 {
+		if l.atEnd() {
 			break
 		}
 		// Handle escaped backticks
